@@ -52,7 +52,7 @@ func c20Lengths(ctx *core.Ctx) []int {
 	l := []int{0, 1, 2, 3, 7, 8, 9, 31, 32, 33, 63, 64, 65, 127, 128, 129, 255, 256, 257, 1023, 1024, 1025,
 		4095, 4096, 4097, 65535, 65536, 65537}
 	if ctx.Thorough() {
-		l = append(l, 1<<20-1, 1<<20, 1<<20+1, 3<<20+5)
+		l = append(l, 1<<20, 1<<20+1) // multi-MiB sizes: part (L) below
 	}
 	return l
 }
@@ -633,7 +633,7 @@ func RunC20(ctx *core.Ctx) {
 		}
 	}
 	// (b) random histories with failing decodes on the same codec value
-	nHist := ctx.Scale(150, 1000)
+	nHist := ctx.Scale(150, 400)
 	for _, codec := range c20Codecs {
 		for h := 0; h < nHist; h++ {
 			n := 2 + r.Intn(9)
@@ -648,13 +648,13 @@ func RunC20(ctx *core.Ctx) {
 	}
 	// (L) large inputs: limits of the third-party streams (windows, block sizes, buffer growth)
 	// depend on the level and only show beyond a few MiB: every exported level of every codec x
-	// sizes around 4, 5 and 9 MiB (thorough: up to 33 MiB, zstd 64 MiB) x incompressible /
+	// sizes around 4, 5 and 9 MiB (thorough: 17 MiB too, zstd 33 MiB) x incompressible /
 	// compressible, one codec value per (level, size)
 	var large []c20Scenario
 	nLevels := map[string]int{"snappy": 2, "uncompressed": 2, "gzip": 6, "brotli": 5, "zstd": 5, "lz4": 5}
 	largeSizes := []int{4<<20 + 1, 5 << 20, 9 << 20}
 	if ctx.Thorough() {
-		largeSizes = append(largeSizes, 17<<20, 33<<20+1)
+		largeSizes = append(largeSizes, 17<<20+1)
 	}
 	for _, codec := range c20Codecs {
 		for lv := 0; lv < nLevels[codec]; lv++ {
@@ -663,7 +663,7 @@ func RunC20(ctx *core.Ctx) {
 			}
 			sizes := largeSizes
 			if codec == "zstd" && ctx.Thorough() {
-				sizes = append(append([]int{}, largeSizes...), 64<<20)
+				sizes = append(append([]int{}, largeSizes...), 33<<20+1)
 			}
 			for si, n := range sizes {
 				ops := []c20Op{
@@ -679,7 +679,7 @@ func RunC20(ctx *core.Ctx) {
 		}
 	}
 	// (c) N goroutines sharing one codec value: valid round trips only, and with failing decodes
-	nConc := ctx.Scale(12, 80)
+	nConc := ctx.Scale(12, 36)
 	for _, codec := range c20Codecs {
 		for h := 0; h < nConc; h++ {
 			g := []int{2, 4, 8, 16}[r.Intn(4)]
@@ -1098,7 +1098,7 @@ func c20BlockFormats(ctx *core.Ctx, obs []c20BlockObs, rp *c20Reporter) {
 		return
 	}
 	r := ctx.Rand("c20-refenc")
-	n := ctx.Scale(300, 3000)
+	n := ctx.Scale(300, 1500)
 	var reqs []string
 	var ins []c20Input
 	var codecs []string
@@ -1122,6 +1122,14 @@ func c20BlockFormats(ctx *core.Ctx, obs []c20BlockObs, rp *c20Reporter) {
 			// the gzip member around it is made here
 			codec, op = "gzip", "inflate.fixedenc "
 		}
+		if i%10 == 2 || i%10 == 7 {
+			// raw DEFLATE from the greedy LZ77 + fixed-Huffman encoder (proved: inflate_deflateFixed_id):
+			// length/distance pairs, overlapping ones on runs; window 1..32 keeps the matcher cheap
+			codec, op = "gzip", fmt.Sprintf("inflate.lz77enc %d ", []int{1, 3, 8, 32}[(i/10)%4])
+			if in.Len > 530 {
+				in.Len = []int{257, 258, 259, 260, 261, 516, 517, 530}[(i/10)%8]
+			}
+		}
 		reqs = append(reqs, op+core.Hex(in.Bytes()))
 		ins, codecs = append(ins, in), append(codecs, codec)
 	}
@@ -1141,8 +1149,12 @@ func c20BlockFormats(ctx *core.Ctx, obs []c20BlockObs, rp *c20Reporter) {
 		if src == "-" {
 			src = ""
 		}
-		if strings.HasPrefix(reqs[i], "inflate.fixedenc ") {
+		if strings.HasPrefix(reqs[i], "inflate.fixedenc ") || strings.HasPrefix(reqs[i], "inflate.lz77enc ") {
 			x := ins[i].Bytes()
+			if strings.HasPrefix(reqs[i], "inflate.lz77enc ") {
+				// a stream shorter than the literal-only coding (>= 8 bits a byte) holds references
+				ctx.Hist("c20.lz77enc", fmt.Sprintf("%s/with-references=%v", strings.Fields(reqs[i])[1], len(src)/2 < len(x)))
+			}
 			m := append([]byte{0x1f, 0x8b, 8, 0, 0, 0, 0, 0, 0, 255}, mustHex(src)...)
 			m = binary.LittleEndian.AppendUint32(m, crc32.ChecksumIEEE(x))
 			m = binary.LittleEndian.AppendUint32(m, uint32(len(x)))
